@@ -617,6 +617,15 @@ def mk_ite(c, a, b):
     c, flipped = canon_cond(c)
     if flipped:
         a, b = b, a
+    # nested conditionals sharing a branch are one conjunction (evaluation order kept)
+    if a[0] == 'ite' and a[3] == b:
+        return mk_ite(mk_bool('and', [c, a[1]]), a[2], b)
+    if a[0] == 'ite' and a[2] == b:
+        return mk_ite(mk_bool('and', [c, mk_not(a[1])]), a[3], b)
+    if b[0] == 'ite' and b[3] == a:
+        return mk_ite(mk_bool('and', [mk_not(c), b[1]]), b[2], a)
+    if b[0] == 'ite' and b[2] == a:
+        return mk_ite(mk_bool('and', [mk_not(c), mk_not(b[1])]), b[3], a)
     return ('ite', c, a, b)
 
 
@@ -1560,6 +1569,67 @@ class PE:
                 return
         effects.append(('if', c, tuple(fa), tuple(fb)))
 
+    # -- structural normal form of effect lists -------------------------------------------------------------
+    @staticmethod
+    def _terminated(effs):
+        if not effs:
+            return False
+        e = effs[-1]
+        if e[0] in ('exit', 'break', 'continue'):
+            return True
+        if e[0] == 'if':
+            return PE._terminated(e[2]) and PE._terminated(e[3])
+        return False
+
+    def _mk_if(self, c, A, B):
+        """one `if` effect in normal form (c is canonical):  nested ifs sharing a branch become one conjunction,
+        two bare exits become one conditional exit"""
+        A, B = tuple(A), tuple(B)
+        if A == B:
+            return list(A)
+        for (outer_then, inner, other) in ((True, A, B), (False, B, A)):
+            if len(inner) == 1 and inner[0][0] == 'if':
+                c2, X, Y = inner[0][1], tuple(inner[0][2]), tuple(inner[0][3])
+                c1 = c if outer_then else mk_not(c)
+                if Y == other:            # if c1: (if c2: X else: Y) else: Y   ->   if c1 and c2: X else: Y
+                    tmp = []
+                    self.emit_if(mk_bool('and', [c1, c2]), list(X), list(Y), tmp)
+                    return tmp
+                if X == other:            # if c1: (if c2: X else: Y) else: X   ->   if c1 and not c2: Y else: X
+                    tmp = []
+                    self.emit_if(mk_bool('and', [c1, mk_not(c2)]), list(Y), list(X), tmp)
+                    return tmp
+        tmp = []
+        self.emit_if(c, list(A), list(B), tmp)
+        return tmp
+
+    def tidy(self, effs):
+        """effects after an `if` one of whose branches leaves belong to the other branch; then normalise each `if`"""
+        out = []
+        effs = list(effs)
+        for i, e in enumerate(effs):
+            if e[0] == 'if':
+                A, B = self.tidy(e[2]), self.tidy(e[3])
+                ta, tb = self._terminated(A), self._terminated(B)
+                rest = effs[i + 1:]
+                if rest and ta != tb:
+                    if ta:
+                        B = self.tidy(list(B) + rest)
+                    else:
+                        A = self.tidy(list(A) + rest)
+                    out.extend(self._mk_if(e[1], A, B))
+                    return out
+                out.extend(self._mk_if(e[1], A, B))
+                if ta and tb:
+                    return out
+            elif e[0] in ('for', 'while'):
+                out.append(e[:5] + (tuple(self.tidy(e[5])), tuple(self.tidy(e[6]))))
+            else:
+                out.append(e)
+                if e[0] in ('exit', 'break', 'continue'):
+                    return out
+        return out
+
     def assigned_names(self, stmts):
         out = []
 
@@ -1878,6 +1948,7 @@ class PE:
         t = self.exec_block(fdef.body, env, effects)
         if not t:
             effects.append(('exit', 'end', NONE, self.roots_state(env)))
+        effects[:] = self.tidy(effects)
         self.sm.env = env
         self.sm.nloops = self.nloops
         return self.sm
